@@ -1,6 +1,7 @@
 package props
 
 import (
+	"strings"
 	"bytes"
 	"context"
 	"fmt"
@@ -88,6 +89,28 @@ func c01Payloads(po env.PipeOpts) *explore.Scenario {
 					r := w.Recs[tag]
 					if r.HStarts != 1 || len(r.HReq) != 1 || r.HReq[0] != string(req) {
 						vsched.Fail("C01/payloads|request", "size %d pattern %d: handler saw %d invocations / a different request", sz, pat, r.HStarts)
+					}
+				}
+			}
+			// reply shapes independent of the request: a reply that encodes to zero bytes
+			// (all fields default) is a reply like any other
+			for _, rsz := range []int{0, 1, 2000, 70000} {
+				for _, reqsz := range []int{0, 5} {
+					tag := fmt.Sprintf("r%d", n)
+					n++
+					reply := strings.Repeat("y", rsz)
+					w.Rec(tag, "Unary")
+					w.Unaries[tag] = func(r *env.Rec, ctx context.Context, in string) (string, error) { return reply, nil }
+					out := new(env.Msg)
+					out.Value = []byte("stale") // must be overwritten, also by an empty reply
+					err := d.CC.Invoke(context.Background(), env.MUnary, env.B(append([]byte(tag+"|"), make([]byte, reqsz)...)), out)
+					if err != nil {
+						vsched.Fail("C01/payloads|error", "reply of %d bytes (request %d): caller got %v", rsz, reqsz, err)
+					} else if string(out.Value) != reply {
+						vsched.Fail("C01/payloads|reply", "reply of %d bytes (request %d): caller got %d bytes", rsz, reqsz, len(out.Value))
+					}
+					if r := w.Recs[tag]; r.HStarts != 1 {
+						vsched.Fail("C01/payloads|request", "reply of %d bytes: handler ran %d times", rsz, r.HStarts)
 					}
 				}
 			}
